@@ -30,6 +30,13 @@ STATE_ATTRS = {"_tracked_jobs": "tracked", "hashes": "hashes"}
 MUTATING_METHODS = {"update", "pop", "clear", "setdefault", "popitem", "__setitem__", "__delitem__"}
 
 
+# calls of these library functions/classes yield library objects (a method called on the result is the library's, whatever it is named)
+EXTERNAL_OBJECT_MAKERS = ("subprocess.", "asyncio.create_subprocess_", "asyncio.subprocess.", "asyncio.open_connection", "asyncio.start_server", "asyncio.Semaphore",
+                          "asyncio.BoundedSemaphore", "asyncio.Lock", "asyncio.Event", "asyncio.Queue", "asyncio.get_event_loop", "asyncio.get_running_loop", "asyncio.new_event_loop",
+                          "socket.", "re.", "logging.", "threading.", "multiprocessing.", "tempfile.", "hashlib.", "io.", "os.stat", "os.lstat", "os.scandir", "os.popen",
+                          "xml.", "urllib.", "http.", "selectors.", "signal.", "time.", "datetime.", "shutil.which")
+
+
 class _LambdaMark:
     """Stands for a lambda used as a callable value: calling it runs code that is already part of the enclosing function."""
     key = "<lambda>"
@@ -272,6 +279,8 @@ class Resolver:
             obj = idx.lookup(canon) if canon else None
             if isinstance(obj, ClassInfo):
                 return {("cls", obj)}
+            if canon and obj is None and canon.startswith(EXTERNAL_OBJECT_MAKERS):
+                return {("ext", canon)}   # a process, socket, match, hash, stat result ...: never an instance of a class of the package
             out = set()
             for callee in self.callees(expr, finfo, {}):
                 if isinstance(callee, BoundFunc):
